@@ -644,10 +644,24 @@ Error Message: {}
                     self.transport._send_message(m)
                     return
                 sig = Message(m.get_binary())
+                # The signature must use the algorithm named in the request
+                # (cert variants sign with their base algorithm), which
+                # _generate_key_from_request checked against our enabled set.
+                sig_algorithm = sig.get_binary()
+                sig.rewind()
                 blob = self._get_session_blob(
                     key, service, username, algorithm
                 )
-                if not key.verify_ssh_sig(blob, sig):
+                expected = algorithm.replace("-cert-v01@openssh.com", "")
+                if sig_algorithm != expected.encode("utf-8"):
+                    self._log(
+                        INFO,
+                        "Auth rejected: signature algorithm is not the requested {!r}".format(  # noqa
+                            algorithm
+                        ),
+                    )
+                    result = AUTH_FAILED
+                elif not key.verify_ssh_sig(blob, sig):
                     self._log(INFO, "Auth rejected: invalid signature")
                     result = AUTH_FAILED
         elif method == "keyboard-interactive":
